@@ -173,8 +173,42 @@ def netmc_check(pid, tier):
     return out.finish()
 
 
+def relmc_check(pid, tier):
+    cfgs = ["rel", "dbgn"]
+    out, tot, distinct, samples, exhaustive, per_cfg = run_netlike(
+        pid, tier, "exploration", "relmc", cfgs, None,
+        ["exact rational evaluation of the relation at each grid point (engine/refq.h)",
+         "completeness of the theories on fully assigned atom sets is only used through a CDCL-style search over the public API",
+         "a request that is rejected with std::invalid_argument is acceptable (C12)"],
+        extra_args=["--prop", pid], deadline_s=None if tier == "quick" else DEADLINE_S)
+    rule = {
+        "C11": "a case = prelude of root constraints (8 preludes: none, lower bound, fixed variable, sum bound, y>=x, constraints whose "
+               "assertion forces one or two pivots so that x is basic, strict root bounds) ; one or two relation requests l REL r with l,r "
+               "from an expression pool built through lin's operators (constants, x, y, x+y, x-y, x-x, x+x, 2*x, x/2, x+1, x+y-y, -x, "
+               "2*x-y, ...) and REL in {<,<=,=,>=,>}; the second request ranges over the same/swapped/complement/other relations on the "
+               "same sides and an independent pool (thorough: with further root constraints asserted in between). For EVERY point of the "
+               "5x5 grid {-1,0,1/2,1,2}^2 satisfying the stated constraints the case is replayed on a fresh network, x,y are pinned at "
+               "root and each returned literal must be satisfiable exactly when its relation holds at the point and refutable exactly "
+               "when it does not (complete search through assume/propagate); pinning must succeed (no solution lost) and root bounds "
+               "must not change by requesting. distinct_nontrivial = distinct (prelude, literal-shape) outcomes",
+        "C12": "for idl_theory and rdl_theory, both creation orders of the two points, network states {empty, x-y<=1, x in [0,3], all + y in "
+               "[1,2]}: every request l REL r with l,r in {k, c*x+k, c*y+k, c*(x-y)+k}, c in {1,-1,2,-2,1/2 (thorough 3,-1/2)}, k in "
+               "{0,1,-2 (thorough 1/2)}: for EVERY grid point (7x7 integers resp. 8x8 with half-integers) in the state both points are "
+               "pinned by unit distance constraints and the literal must be satisfiable exactly when the relation holds; and for every "
+               "pair (l,r) in every state bounds(l), distance(l,r), equates(l,r) are compared with the intervals derived from the "
+               "variable-level bounds()/distance() of the same state. distinct_nontrivial = distinct (theory,relation,shape,state,"
+               "outcome) classes for literal cases + distinct query cases",
+    }[pid]
+    out.coverage = {
+        "evaluations": tot.get("replays", 0), "distinct_nontrivial": distinct.get("outcomes", 0), "rule": rule,
+        "samples": samples, "exhaustive": exhaustive, "cases": tot.get("cases", 0),
+        "rejected_forms": tot.get("rejected_forms", 0), "configurations": per_cfg,
+    }
+    return out.finish()
+
+
 # ------------------------------------------------------------------------------------------------
-PROPS = {"C15": c15, "C13": c13}
+PROPS = {"C15": c15, "C13": c13, "C11": lambda tier: relmc_check("C11", tier), "C12": lambda tier: relmc_check("C12", tier)}
 for _p in ("C07", "C08", "C09", "C10", "C14"):
     PROPS[_p] = (lambda pid: (lambda tier: netmc_check(pid, tier)))(_p)
 
@@ -183,7 +217,7 @@ def setup():
     t0 = time.time()
     for cfg in ["rel", "dbgn", "dbg"]:
         vbuild.ensure_tree(cfg, quiet=False)
-    for cfg, h in [("rel", "arith_enum"), ("dbgn", "arith_enum"), ("dbg", "arith_enum"), ("rel", "reify"), ("dbgn", "reify"), ("rel", "netmc"), ("dbgn", "netmc")]:
+    for cfg, h in [("rel", "arith_enum"), ("dbgn", "arith_enum"), ("dbg", "arith_enum"), ("rel", "reify"), ("dbgn", "reify"), ("rel", "netmc"), ("dbgn", "netmc"), ("rel", "relmc"), ("dbgn", "relmc")]:
         vbuild.ensure_harness(cfg, h, quiet=False)
     print("setup done in %.0fs" % (time.time() - t0))
     return 0
